@@ -5,6 +5,7 @@ import (
 	"path/filepath"
 	"strings"
 	"testing"
+	"time"
 )
 
 // C06: listing, stat and dir-size report the true tree.
@@ -45,7 +46,7 @@ func c06MakeEntry(dir, name, kind string, w *World) {
 func TestC06(t *testing.T) {
 	r := NewReporter(t)
 	defer r.Done()
-	r.Rule("directories with 0..3 entries of every kind combination (file, dir, symlink->file, symlink->dir, dangling, self-referencing link, link through a regular file) and name sets (ASCII, space, non-ASCII, 255 bytes, not valid UTF-8) x every interleaving of {ReadDir, ReadDirEntry, ReadDirEntryV2} of length <= entries+2 after OpenDir; entry-count families (1..40 / 1..300 contiguous, then powers of two +-1 up to 4097); Stat and GetDirSize on every path of every tree with <= 3 nodes; distinct by (directory shape, command sequence)")
+	r.Rule("directories with 0..3 entries of every kind combination (file, dir, symlink->file, symlink->dir, dangling, self-referencing link, link through a regular file) and name sets (ASCII, space, non-ASCII, 255 bytes, not valid UTF-8) x every interleaving of {ReadDir, ReadDirEntry, ReadDirEntryV2} of length <= entries+2 after OpenDir; sizes and modification times beyond 32 bits; entry-count families (1..40 / 1..300 contiguous, then powers of two +-1 up to 4097); Stat and GetDirSize on every path of every tree with <= 3 nodes; distinct by (directory shape, command sequence)")
 	w := newWorld(t, "srv/root")
 	defer w.Cleanup()
 	mkFileAbs(filepath.Join(w.Root, "targets", "tfile"), 1234, 7, baseTime.Add(time1(40)))
@@ -188,6 +189,42 @@ func TestC06(t *testing.T) {
 	}
 	os.RemoveAll(filepath.Join(w.Root, "L"))
 
+	// (b') magnitudes: sizes at and beyond 32 bits (sparse files), their sum in dir-size, and modification times beyond
+	// 2^31 and 2^32 seconds - every size and time field of the protocol is 64 bits wide
+	caseIdx++
+	if r.Mine(caseIdx) {
+		dir := filepath.Join(w.Root, "L")
+		os.RemoveAll(dir)
+		must(os.Mkdir(dir, 0o755))
+		for i, sz := range []int64{1<<31 - 1, 1 << 31, 1<<32 - 1, 1 << 32, 1<<32 + 1, 1<<33 + 5, 1 << 40} {
+			p := filepath.Join(dir, sprintf("big%d.bin", i))
+			f, err := os.Create(p)
+			must(err)
+			must(f.Truncate(sz))
+			must(f.Close())
+			must(os.Chtimes(p, baseTime, baseTime))
+		}
+		for i, ts := range []int64{1<<31 - 1, 1 << 31, 1<<32 - 1, 1 << 32, 1<<32 + 86400, 1 << 33} {
+			p := filepath.Join(dir, sprintf("time%d.bin", i))
+			mkFileAbs(p, int64(10+i), 3, time.Unix(ts, 0))
+		}
+		must(os.Mkdir(filepath.Join(dir, "late"), 0o755))
+		must(os.Chtimes(filepath.Join(dir, "late"), time.Unix(1<<32+5, 0), time.Unix(1<<32+5, 0)))
+		var reqs []Req
+		reqs = append(reqs, mkReq(opOpenDir, "/L"), noargReq(opReadDir), mkReq(opGetDirSize, "/L"), mkReq(opGetDirSize, "/"), mkReq(opOpenDir, "/L"))
+		for i := 0; i < 16; i++ {
+			reqs = append(reqs, noargReq(opReadDirEntry))
+		}
+		reqs = append(reqs, mkReq(opOpenDir, "/L"))
+		for i := 0; i < 16; i++ {
+			reqs = append(reqs, noargReq(opReadDirEntryV2))
+		}
+		for _, n := range []string{"big0.bin", "big3.bin", "big5.bin", "big6.bin", "time1.bin", "time3.bin", "time5.bin", "late"} {
+			reqs = append(reqs, mkReq(opStatFile, "/L/"+n), mkReq(opOpenFile, "/L/"+n))
+		}
+		run("sizes and times beyond 32 bits", reqs)
+		os.RemoveAll(dir)
+	}
 	// (c) stat and dir-size on every path of every small tree
 	maxNodes := 3
 	if r.Thorough() {
